@@ -83,6 +83,16 @@ def generate(run_seed, index, tier):
         names = [srng.weighted(r, tab) for _ in range(1 if pool is reg.HEAVY else r.randint(1, 3))]
     heavy = any(reg.R[n]['heavy'] for n in names)
     calls = [_mk_spec(r, n) for n in names]
+    if heavy and names[0].startswith('optimize.') and r.random() < 0.6:
+        # the sibling optimizer API on the SAME model object (cross-API history: minimize leaves gradients/parameters behind)
+        sib = 'optimize.minimize_adam' if names[0] == 'optimize.minimize' else 'optimize.minimize'
+        spec = _mk_spec(r, sib)
+        for key in ('model', 'n', 'mseed'):
+            spec['args'][key] = calls[0]['args'][key]
+        spec['args']['reuse'] = True
+        calls[0]['args']['reuse'] = True
+        calls.append(spec)
+        names = names + [sib]
     use_clock = any(n.startswith('optimize.') or 'Boundary' in n or 'get_boundary' in n for n in names)
     ops = []
     for k, spec in enumerate(calls):
